@@ -106,21 +106,35 @@ type State struct {
 	Marked map[*smt.Term]bool
 	// pure-evaluation nesting depth (no obligations are emitted when > 0)
 	PureDepth int
+	// environment epoch (advanced at every call) and, per channel term, the epoch at
+	// which its closed flag was last refreshed
+	// literal facts of the path condition (for cheap simplification of goals)
+	Lits map[*smt.Term]*smt.Term
+	Epoch   int
+	Touched map[*smt.Term]int
 	// when set, modifies items are recorded instead of applied
 	ModCollect *modSet
 }
 
 func NewState() *State {
-	return &State{Heap: map[string]*smt.Term{}, Mem: map[string]*smt.Term{}, Cells: map[*Cell]Value{}, FD: map[int]*frameData{}, Known: map[*smt.Term]bool{}, Marked: map[*smt.Term]bool{}}
+	return &State{Heap: map[string]*smt.Term{}, Mem: map[string]*smt.Term{}, Cells: map[*Cell]Value{}, FD: map[int]*frameData{}, Known: map[*smt.Term]bool{}, Marked: map[*smt.Term]bool{}, Touched: map[*smt.Term]int{}, Lits: map[*smt.Term]*smt.Term{}}
 }
 
 func (s *State) Clone() *State {
 	n := &State{Heap: make(map[string]*smt.Term, len(s.Heap)), Mem: make(map[string]*smt.Term, len(s.Mem)), Cells: make(map[*Cell]Value, len(s.Cells)),
-		OldDepth: s.OldDepth, Pre: s.Pre, PureDepth: s.PureDepth, ModCollect: s.ModCollect}
+		OldDepth: s.OldDepth, Pre: s.Pre, PureDepth: s.PureDepth, ModCollect: s.ModCollect, Epoch: s.Epoch}
+	n.Lits = make(map[*smt.Term]*smt.Term, len(s.Lits))
+	for k, v := range s.Lits {
+		n.Lits[k] = v
+	}
+	n.Touched = make(map[*smt.Term]int, len(s.Touched))
+	for k, v := range s.Touched {
+		n.Touched[k] = v
+	}
 	n.Fresh = append([]*smt.Term(nil), s.Fresh...)
 	n.FD = make(map[int]*frameData, len(s.FD))
 	for k, v := range s.FD {
-		c := &frameData{Prev: v.Prev, Defers: append([]deferred(nil), v.Defers...), ActiveLoops: map[*ssa.BasicBlock]bool{}}
+		c := &frameData{Prev: v.Prev, Defers: append([]deferred(nil), v.Defers...), ActiveLoops: map[*ssa.BasicBlock]bool{}, Stops: append([]stopPoint(nil), v.Stops...)}
 		for b := range v.ActiveLoops {
 			c.ActiveLoops[b] = true
 		}
@@ -155,7 +169,29 @@ func (s *State) Assume(t *smt.Term) {
 	}
 	s.PC = append(s.PC, t)
 	s.IsBranch = append(s.IsBranch, false)
+	s.noteLit(t)
 }
+
+// noteLit records literal facts (atoms and negated atoms, also inside conjunctions).
+func (s *State) noteLit(t *smt.Term) {
+	switch t.Op {
+	case smt.OAnd:
+		for _, a := range t.Args {
+			s.noteLit(a)
+		}
+	case smt.ONot:
+		if a := t.Args[0]; a.Op != smt.OAnd && a.Op != smt.OOr && a.Op != smt.OImplies && a.Op != smt.OForall && a.Op != smt.OConst {
+			s.Lits[a] = falseTerm
+		}
+	case smt.OOr, smt.OImplies, smt.OForall, smt.OExists, smt.OConst, smt.OIte:
+	default:
+		if t.Sort == smt.Bool {
+			s.Lits[t] = trueTerm
+		}
+	}
+}
+
+var trueTerm, falseTerm *smt.Term
 
 // Branch records a branch decision.
 func (s *State) Branch(t *smt.Term) {
@@ -164,6 +200,7 @@ func (s *State) Branch(t *smt.Term) {
 	}
 	s.PC = append(s.PC, t)
 	s.IsBranch = append(s.IsBranch, true)
+	s.noteLit(t)
 }
 
 // ---------- type helpers ----------
